@@ -181,7 +181,7 @@ RECURSIVE MInDomain(_)
 MInDomain(ts) ==
   IF ~HasM(ts) THEN TRUE
   ELSE LET i == FirstM(ts) u == UnitOf(ts, i) IN
-       /\ ts[i].n \in 1..12
+       /\ ts[i].n \in 1..30
        /\ u.start > 0
        /\ \A j \in u.start..u.stop : ts[j].k # "R"
        /\ (i < Len(ts) => ts[i + 1].k \notin {"R", "M"})
